@@ -52,6 +52,7 @@ ID = 'C20'
 LEAN_MODULES = ['Py65.Props.C20']
 NAMESPACES = ['Py65.Props.C20']
 LEVEL = 'proof'
+USES_PROLOGUE = True
 USES_GEN = False
 EXPECTED_THEOREMS = [
     'Py65.Props.C20.dispatch_total', 'Py65.Props.C20.quit_forms', 'Py65.Props.C20.rejected_unchanged',
